@@ -23,6 +23,7 @@ RULE = (
     "offset of the zone (clock shim) or inside the real-clock window + offset. Non-trivial = a sleeping requester got a reaction, or "
     "version-unknown with a failing handler, or >= 2 nodes asked, or non-zero UTC offset with a time request; distinct = distinct case JSON."
     ' Round 5: value types outside the per-version tables (47, 57, 99, 255...) are stored and requested; a message the model accepts that owes a reaction but is refused without it is reported as `reaction-refused`.'
+    ' Round 6: application sends (set, req) and save/reload/read-error events in histories; what a send writes and what a wake releases are left to C07.'
 )
 ASSUMPTIONS = [
     "time zones are fixed-offset POSIX TZ strings applied with time.tzset(); the handler module's `time` attribute is shimmed when present",
